@@ -41,14 +41,87 @@ FUNCS5B = [
     (F, None, None, "compare_array", "compare_array", "compare"),
     (F, None, None, "compare_object", "compare_object", "compare"),
     (F, None, None, "compare", "compare", None),
+    (F, None, None, "scalar_convert_to_comparable", "scalar_convert_to_comparable", "comparable"),
+    (F, None, None, "array_convert_to_comparable", "array_convert_to_comparable", "comparable"),
+    (F, None, None, "object_convert_to_comparable", "object_convert_to_comparable", "comparable"),
+    (F, None, None, "convert_to_comparable", "convert_to_comparable", None),
 ]
 
 # public functions whose first statement is an `if` / `else if` chain of sniffing tests, every branch of which
 # leaves the function: branch k is the parameter `text<k>__` holding its result
 TEXT_CHAIN = {"compare": 3}
 
+# public functions without a result (`fn f(value: &[u8], buf: &mut Vec<u8>)`) that contain one statement
+# `if !is_jsonb(value) { <text branch>; return; }`: the text branch calls the JSON text parser (and the function itself
+# on the re-encoded document) and is kept as a parameter `text__` holding its result (the final buffer)
+TEXT_UNIT = {"convert_to_comparable"}
+
 
 class FnTr5b(FnTr4):
+    # -- expressions
+    def ex_mcall(self, e, want):
+        if e.name == "saturating_add" and len(e.args) == 1:
+            save = self.tmp
+            ls, t, ty = self.ex(e.recv, want if (want is not None and want[0] == "int") else None)
+            ty = self.default_flex(ty) if R.is_flex(ty) else ty
+            if is_int(ty):
+                l1, t1, _ = self.ex(e.args[0], ty)
+                return ls + l1, "(Rs.saturatingAdd %s %s %s)" % (self.ity(ty), self.atom(t), self.atom(t1)), ty
+            self.tmp = save
+        return FnTr4.ex_mcall(self, e, want)
+
+    def idents_of(self, node):
+        # a `return` inside a loop body yields the final values of the `&mut` parameters: they are free
+        # variables of the hoisted body even where it never names them
+        acc = FnTr4.idents_of(self, node)
+        found = []
+
+        def walk(x):
+            if isinstance(x, (list, tuple)):
+                for y in x:
+                    walk(y)
+            elif isinstance(x, N):
+                if x.kind in ("return", "try"):
+                    found.append(x)
+                for kk, v in x.__dict__.items():
+                    if kk != "kind":
+                        walk(v)
+        walk(node)
+        if found:
+            acc = set(acc) | set(self.mutparams)
+        return acc
+
+    def tr_assign(self, e):
+        # `b[i] op= x` on a byte array with a literal index and a literal operand: `b[i] = b[i] op x`
+        lhs = strip(e.lhs)
+        if lhs.kind == "index" and e.op != "=" and e.op.endswith("=") and lhs.idx.kind == "int" and strip(e.rhs).kind == "int":
+            e = N("assign", op="=", lhs=e.lhs, rhs=N("bin", op=e.op[:-1], l=lhs, r=e.rhs))
+        return FnTr4.tr_assign(self, e)
+
+    def ctl(self, e, mode, want):
+        # `if let Ok(p) = <call of a translated function without &mut parameters> { .. }`: the error value is dropped
+        if e.kind == "iflet" and e.pat.kind == "p_ctor" and e.pat.path == ["Ok"] and len(e.pat.args) == 1:
+            sc = e.scrut
+            while sc.kind == "paren":
+                sc = sc.e
+            if sc.kind in ("call", "mcall"):
+                sig = self.callee_sig(sc)
+                if sig is None or sig["ret"][0] != "res" or sig.get("mut") or sig.get("writer") or sig.get("fuel"):
+                    raise Unsupported("`if let Ok(..)` on a call that is not a translated function without `&mut` parameters")
+                e = N("iflet", pat=N("p_ctor", path=["Some"], args=e.pat.args), scrut=N("res_as_opt", e=sc),
+                      then=e.then, els=e.els)
+        return FnTr4.ctl(self, e, mode, want)
+
+    def ex_bin(self, e, want):
+        if e.op in ("&", "|", "^"):
+            save = self.tmp
+            ls, lt, rt, ty = self.pair(e.l, e.r, want if (want is not None and want[0] == "int") else None)
+            if is_int(ty) and ty[1][0] == "i":
+                fn = {"&": "bitandS", "|": "bitorS", "^": "bitxorS"}[e.op]
+                return ls, "(Rs.%s %s %s %s)" % (fn, self.ity(ty), self.atom(lt), self.atom(rt)), ty
+            self.tmp = save
+        return FnTr4.ex_bin(self, e, want)
+
     # -- whole function: the sniffing chain of `compare`
     def always_returns(self, b):
         """every path through the block ends in `return <e>`"""
@@ -72,7 +145,29 @@ class FnTr5b(FnTr4):
             return self.always_returns(last.then) and self.always_returns(els)
         return False
 
+    def split_text_unit(self, body):
+        hits = []
+        for i, s0 in enumerate(body.stmts):
+            e = s0.e if s0.kind == "expr" else None
+            if e is not None and e.kind == "if" and e.els is None and self.is_sniff(e.cond):
+                hits.append((i, e))
+        if len(hits) != 1:
+            raise Unsupported("expected one `if !is_jsonb(..) { <text branch>; return; }` statement")
+        i, e = hits[0]
+        last = e.then.tail if e.then.tail is not None else (e.then.stmts[-1].e if e.then.stmts and e.then.stmts[-1].kind == "expr" else None)
+        if last is None or last.kind != "return" or last.e is not None:
+            raise Unsupported("the text branch must end with `return;`")
+        for s1 in body.stmts[:i]:
+            if not (s1.kind == "let" and s1.init is not None and strip(s1.init).kind == "int"):
+                raise Unsupported("only literal `let`s may precede the text branch")
+        self.text_params = ["text__"]
+        then = N("block", stmts=[], tail=N("return", e=N("path", segs=["text__"])))
+        s0 = N("expr", e=N("if", cond=e.cond, then=then, els=None), semi=False)
+        return N("block", stmts=body.stmts[:i] + [s0] + body.stmts[i + 1:], tail=body.tail)
+
     def split_text_branch(self, body):
+        if self.name in TEXT_UNIT:
+            return self.split_text_unit(body)
         if self.name not in TEXT_CHAIN:
             return FnTr4.split_text_branch(self, body)
         want = TEXT_CHAIN[self.name]
@@ -98,7 +193,7 @@ class FnTr5b(FnTr4):
         return N("block", stmts=[s0] + body.stmts[1:], tail=body.tail)
 
     def translate0(self):
-        if self.name not in TEXT_CHAIN:
+        if self.name not in TEXT_CHAIN and self.name not in TEXT_UNIT:
             return FnTr4.translate0(self)
         p = self.body_parser
         body = p.parse_block()
@@ -111,10 +206,12 @@ class FnTr5b(FnTr4):
         for n, t in self.params:
             self.bind(n, t)
             binders.append("(%s : %s)" % (lname(n), self.lt(t)))
-        if self.ret[0] != "res" or self.mutparams:
+        if self.name in TEXT_CHAIN and (self.ret[0] != "res" or self.mutparams):
+            raise Unsupported("text prologue in a function of this shape")
+        if self.name in TEXT_UNIT and (self.ret != ("unit",) or not self.mutparams or self.group is not None):
             raise Unsupported("text prologue in a function of this shape")
         for tp in self.text_params:
-            self.scopes[-1][tp] = self.ret
+            self.scopes[-1][tp] = ("res", self.ret)
             binders.append("(%s : Res %s)" % (tp, self.lean_ret()))
         self.text_param = self.text_params[0]
         lines, _, _, _ = self.tr_block(body, "tail", None)
@@ -127,7 +224,7 @@ class FnTr5b(FnTr4):
         return out, [head] + ind(lines)
 
     def tail(self, e):
-        if (e is not None and e.kind == "path" and len(e.segs) == 1 and self.name in TEXT_CHAIN
+        if (e is not None and e.kind == "path" and len(e.segs) == 1 and (self.name in TEXT_CHAIN or self.name in TEXT_UNIT)
                 and e.segs[0] in getattr(self, "text_params", [])):
             return ["Ctl.ret %s" % e.segs[0]]
         return FnTr4.tail(self, e)
@@ -221,6 +318,8 @@ def generate(repo, prev_text):
             params = list(tr.params)
             for k in range(TEXT_CHAIN.get(name, 0)):
                 params.append(("text%d__" % (k + 1), tr.ret))
+            if name in TEXT_UNIT:
+                params.append(("text__", ("res", tr.ret)))
             world.sigs[(file, impl, name)] = dict(
                 params=params, ret=tr.ret, lean=lean, writer=None, mut=list(tr.mutparams), name=name, group=group,
                 trait=trait, fuel=(True if group is not None else None), holder=None,
